@@ -25,7 +25,8 @@ USER = 'user code: '
 def _none_axioms():
     # None has none of the attributes the engine probes on declared objects
     return [z3.Not(HAS_ATTR(NONE, z3.StringVal(n))) for n in ('name', 'node_type', '__module__', 'process', 'default_factory',
-                                                                '__annotations__', '__generic_class__')]
+                                                                '__annotations__', '__generic_class__', '__qualname__')] \
+        + [z3.Not(z3.Function('inspect_isclass', PyV, z3.BoolSort())(NONE))]      # None is not a class
 
 
 from .values import EXTRA_AXIOMS   # noqa: E402
@@ -137,11 +138,14 @@ class UserCallPlugin:
         # on a user class is outside the validity precondition (NodeBase supplies defaults for all of them)
         if name in ('attempts', 'delay', 'exceptions', 'use_default', 'tags', 'process', 'get_default', 'node_type',
                     'name', 'verbose_name', 'save', 'load', '_shutdown', '_shutdown_thread', 'value', 'hex',
-                    '__name__', '__module__', '__doc__', '__annotations__', '__class__', '__generic_class__'):
+                    '__name__', '__qualname__', '__module__', '__doc__', '__annotations__', '__class__', '__generic_class__'):
             st = it.st
-            if name in ('__module__', '__annotations__', '__generic_class__'):
-                # not every object has these: missing -> AttributeError
-                if not st.branch(HAS_ATTR(obj.t, z3.StringVal(name)), f'hasattr-{name}'):
+            if name in ('__module__', '__annotations__', '__generic_class__', '__qualname__'):
+                # not every object has these: missing -> AttributeError; every class has __module__ / __name__ / __qualname__
+                has = HAS_ATTR(obj.t, z3.StringVal(name))
+                if name in ('__module__', '__qualname__'):
+                    has = z3.Or(has, z3.Function('inspect_isclass', PyV, z3.BoolSort())(obj.t))
+                if not st.branch(has, f'hasattr-{name}'):
                     it.raise_builtin('AttributeError', f'object has no attribute {name}')
             if st.branch(PyV.is_none(obj.t), 'attr-of-none'):
                 it.raise_builtin('AttributeError', f'None.{name}')
